@@ -218,3 +218,65 @@ def extra_C12(rep, tier):
         rep.coverage["traces_validated_against_impl"] = rep.coverage.get("traces_validated_against_impl", 0) + 1
     finally:
         shutil.rmtree(work, ignore_errors=True)
+
+
+def observed_sessions(rep, prop):
+    """Code -> spec on the inputs the repository's own tests already use: the test-suite is run with
+    a recording pytest plugin (no source hook) and every top-level structure / unstructure call is
+    judged by CodecTrace.tla (session kind "observed")."""
+    import json
+    import os
+    import shutil
+    import subprocess
+    work = common.scratch("observed-")
+    try:
+        evp = os.path.join(work, "events.json")
+        env = dict(os.environ, PYTHONPATH=common.VERIF, VERIF_TRACE_OUT=evp, PYTHONDONTWRITEBYTECODE="1", PYTHONHASHSEED="0")
+        subprocess.run([common.PY, "-m", "pytest", "-q", "-p", "no:cacheprovider", "-p", "harness.pytest_recorder", "tests/python"],
+                       cwd=common.REPO, env=env, stdout=subprocess.PIPE, stderr=subprocess.PIPE, timeout=900)
+        if not os.path.exists(evp):
+            raise common.MachineryError("the recording run of the repository's test-suite wrote no events")
+        evs = json.load(open(evp, encoding="utf-8"))
+        sessions = []
+        i = 0
+        while i < len(evs):
+            e = evs[i]
+            if e["e"] == "Structure" and e["root"]["kind"] != "unknown":
+                ev1 = {"e": "Structure", "j": e["j"], "reqcls": e["cls"], "ok": e["ok"], "exc": e["exc"], "pos": "", "msg": "", "atunion": False, "p": e["p"]}
+                evl = [ev1]
+                if e["ok"] and i + 1 < len(evs) and evs[i + 1]["e"] == "Unstructure" and evs[i + 1]["oid"] == e["oid"]:
+                    evl.append({"e": "Unstructure", "ok": True, "exc": "", "pos": "", "msg": "", "w": evs[i + 1]["w"]})
+                    i += 1
+                sessions.append({"sid": len(sessions) + 1, "sk": "observed", "root": e["root"], "var": {"vk": "none", "name": ""}, "d": 0, "ev": evl, "test": e["test"]})
+            i += 1
+        if not sessions:
+            raise common.MachineryError("no structure call of a protocol class was observed in the test-suite")
+        from .codec_driver import norm_table
+        model = os.path.join(common.REPO, "generator", "lsp.json")
+        tp = os.path.join(work, "trace.json")
+        json.dump({"norm": norm_table(model), "sessions": sessions}, open(tp, "w"), ensure_ascii=False)
+        nev = sum(len(s["ev"]) for s in sessions)
+        rc, out = common.run_tlc("CodecTrace", codec_check.trace_cfg(len(sessions), nev), env={"LSP_MODEL": model, "CODEC_TRACE": tp}, heap="3g")
+        if '"@DONE' not in out:
+            raise common.MachineryError("CodecTrace.tla did not consume the observed sessions:\n" + out[-2500:])
+        want = {"C01": {"S_ok", "U_lossless"}, "C03": {"S_typed"}}[prop]
+        by = {s["sid"]: s for s in sessions}
+        for f in common.tagged_lines(out, "@F"):
+            s = by[f["sid"]]
+            for clause in sorted(set(f["c"]) & want):
+                pos = min(f["pos"]) if f["pos"] else "%s:%s" % (s["root"]["kind"], s["root"]["name"])
+                rep.violation({"clause": clause, "pos": pos, "exc": s["ev"][f["l"] - 1].get("exc", ""), "observed_in": s["test"].split("::")[0]},
+                              {"session": s, "failing_event": f["l"], "clauses": f["c"], "positions": f["pos"]})
+        rep.coverage["test_suite_calls_validated"] = nev
+        rep.coverage["test_suite_sessions"] = len(sessions)
+        rep.coverage["traces_validated_against_impl"] = rep.coverage.get("traces_validated_against_impl", 0) + len(sessions)
+    finally:
+        shutil.rmtree(work, ignore_errors=True)
+
+
+def extra_C01(rep, tier):
+    observed_sessions(rep, "C01")
+
+
+def extra_C03(rep, tier):
+    observed_sessions(rep, "C03")
